@@ -103,6 +103,7 @@ class Machine:
     NotImplementedError to get SYM)"""
 
     max_steps = 4000
+    max_depth = 4
 
     def __init__(self, prog, unit):
         self.prog = prog
@@ -130,7 +131,7 @@ class Machine:
 
     # -- running -----------------------------------------------------------
     def run(self, fn, args, depth=0):
-        if depth > 4:
+        if depth > self.max_depth:
             raise Undecided('call depth')
         env = {}
         for p, a in zip(fn.params, args):
